@@ -264,10 +264,12 @@ fn run_memfs_transcript(ops: &[Op], rep: &mut Report, tag: &str) {
         }
         for (name, r, v) in [("Vfs::Memfs", &r2, &wrapped), ("upcast", &r3, &up)] {
             let same_state = snap_of(v).map(|s| s == s1).unwrap_or(false);
-            if *r != r1 || !same_state {
+            // (after such a half-way failure the error that was met first may differ as well)
+            let same_res = if partial { r.is_err() } else { *r == r1 };
+            if !same_res || !same_state {
                 diverged = true;
                 rep.violation(
-                    &format!("wrap:{}({}):{}→{}", op.name(), name, r1.class(), if *r != r1 { format!("result {}", r.class()) } else { "state differs".into() }),
+                    &format!("wrap:{}({}):{}→{}", op.name(), name, r1.class(), if !same_res { format!("result {}", r.class()) } else { "state differs".into() }),
                     J::obj(vec![
                         ("history", J::strs(&hist[hist.len().saturating_sub(12)..])),
                         ("call", J::s(op.describe())),
@@ -292,13 +294,48 @@ fn run_memfs_transcript(ops: &[Op], rep: &mut Report, tag: &str) {
     }
 }
 
+/// the top directory of one of the two Stdfs sandboxes (<tmp>/A or <tmp>/B): everything a call can reach, also
+/// through a link that resolves above the sandbox root, lies below it and starts out equal on both sides
+fn top_of(root: &str) -> String {
+    root.strip_suffix(NEST).unwrap_or(root).to_string()
+}
+const NEST: &str = "/1/2/3/s";
+
 fn norm(r: &Res, root: &str) -> String {
-    format!("{:?}", r).replace(root, "<R>").replace(&parent_of(root).unwrap_or_default(), "<P>")
+    format!("{:?}", r).replace(root, "<R>").replace(&top_of(root), "<T>")
+}
+
+/// the entries below `root` in the order the kernel lists them (what a traversal of the real backend follows)
+fn readdir_order(root: &str) -> Vec<String> {
+    let mut out = vec![];
+    let mut stack = vec![root.to_string()];
+    while let Some(d) = stack.pop() {
+        if let Ok(rd) = std::fs::read_dir(&d) {
+            for e in rd.flatten() {
+                let p = e.path().to_string_lossy().to_string();
+                let md = std::fs::symlink_metadata(&p);
+                let kind = match &md {
+                    Ok(m) if m.file_type().is_symlink() => format!("l>{}", std::fs::read_link(&p).map(|t| t.to_string_lossy().to_string()).unwrap_or_default()),
+                    Ok(m) if m.is_dir() => "d".to_string(),
+                    _ => "f".to_string(),
+                };
+                out.push(format!("{} {}", p, kind));
+                if kind == "d" {
+                    stack.push(p);
+                }
+            }
+        }
+    }
+    out
 }
 
 fn run_stdfs_transcript(ops: &[Op], ra: &str, rb: &str, rep: &mut Report, tag: &str) {
-    wipe(ra);
-    wipe(rb);
+    // (the whole top directories, not only the sandbox roots: a link moved upwards resolves above the root and what
+    // a call creates there must not survive into the next transcript, on one side only)
+    wipe(&top_of(ra));
+    wipe(&top_of(rb));
+    let _ = std::fs::create_dir_all(ra);
+    let _ = std::fs::create_dir_all(rb);
     let direct = Stdfs::new();
     let wrapped = Vfs::stdfs();
     let mut hist: Vec<String> = vec![];
@@ -315,9 +352,11 @@ fn run_stdfs_transcript(ops: &[Op], ra: &str, rb: &str, rep: &mut Report, tag: &
         }
         rep.eval();
         let (oa, ob) = (map_op(op, ra), map_op(op, rb));
-        set_case(&format!("wrap-stdfs:{}:returns→stalls", op.name()), &oa.describe());
+        set_case(&format!("wrap-stdfs:{}:returns→stalls", op.name()), &format!("{} after {:?} on {}{}", oa.describe(), &hist[hist.len().saturating_sub(30)..], disk_ntree(ra).to_json().dump(), if matches!(op, Op::CopyB(_, _, _, true)) { format!(" readdir-order {:?}", readdir_order(ra)) } else { String::new() }));
         let r1 = exec(&direct, &oa);
+        set_case(&format!("wrap-stdfs:{}(through the wrapper):returns→stalls", op.name()), &format!("{} after {:?} on {}", ob.describe(), &hist[hist.len().saturating_sub(30)..], disk_ntree(rb).to_json().dump()));
         let r2 = exec(&wrapped, &ob);
+        set_case("wrap-stdfs:harness-observers", "");
         hist.push(op.describe());
         rep.key_str(&format!("stdfs:{}:{}", op.name(), r1.class()));
         rep.count(&format!("method-stdfs:{}", op.name()), 1);
@@ -325,9 +364,9 @@ fn run_stdfs_transcript(ops: &[Op], ra: &str, rb: &str, rep: &mut Report, tag: &
         let (t1, t2) = (comparable(&disk_ntree(ra)), comparable(&disk_ntree(rb)));
         // (a link moved upwards can resolve next to the sandbox root, and a copy under follow recreates absolute
         // target paths below the destination: the differing parent directory names A / B are neutralised too)
-        let (pa, pb) = (parent_of(ra).unwrap(), parent_of(rb).unwrap());
-        let t1: Vec<(String, String)> = t1.into_iter().map(|(k, v)| (k.replace(ra, "<R>").replace(&pa, "<P>"), v.replace(ra, "<R>").replace(&pa, "<P>"))).collect();
-        let t2: Vec<(String, String)> = t2.into_iter().map(|(k, v)| (k.replace(rb, "<R>").replace(&pb, "<P>"), v.replace(rb, "<R>").replace(&pb, "<P>"))).collect();
+        let (pa, pb) = (top_of(ra), top_of(rb));
+        let t1: Vec<(String, String)> = t1.into_iter().map(|(k, v)| (k.replace(ra, "<R>").replace(&pa, "<T>"), v.replace(ra, "<R>").replace(&pa, "<T>"))).collect();
+        let t2: Vec<(String, String)> = t2.into_iter().map(|(k, v)| (k.replace(rb, "<R>").replace(&pb, "<T>"), v.replace(rb, "<R>").replace(&pb, "<T>"))).collect();
         if n1 != n2 || t1 != t2 {
             rep.violation(
                 &format!("wrap:{}(Vfs::Stdfs):{}→{}", op.name(), r1.class(), if n1 != n2 { format!("result {}", r2.class()) } else { "tree differs".into() }),
@@ -337,6 +376,8 @@ fn run_stdfs_transcript(ops: &[Op], ra: &str, rb: &str, rep: &mut Report, tag: &
                     ("direct", J::s(n1.chars().take(300).collect::<String>())),
                     ("through_wrapper", J::s(n2.chars().take(300).collect::<String>())),
                     ("workload", J::s(tag)),
+                    ("raw_tree_direct", disk_ntree(ra).to_json()),
+                    ("raw_tree_wrapped", disk_ntree(rb).to_json()),
                     ("tree_direct_vs_wrapped", J::s(diff_maps(&t1.iter().cloned().collect(), &t2.iter().cloned().collect()))),
                 ]),
             );
@@ -352,8 +393,8 @@ fn run_stdfs_transcript(ops: &[Op], ra: &str, rb: &str, rep: &mut Report, tag: &
 fn c13(ctx: &Ctx, rep: &mut Report) {
     std::env::set_var("HOME", HOME);
     let (sb, root) = Sandbox::nested("c13");
-    let ra = format!("{}/A/s", root);
-    let rb = format!("{}/B/s", root);
+    let ra = format!("{}/A{}", root, NEST);
+    let rb = format!("{}/B{}", root, NEST);
     std::fs::create_dir_all(&ra).unwrap();
     std::fs::create_dir_all(&rb).unwrap();
     if !drop_privileges(&sb, 1000, 1000) {
